@@ -37,6 +37,10 @@ func sanitizeSelectionSet(ctx *PlanningContext, selectionSet ast.SelectionSet, i
 			scrubFields.Merge(sf)
 			result = addSelectionSetToSanitizedResult(result, selSet...)
 		case *ast.InlineFragment:
+			// a fragment without a type condition has the type of its surroundings
+			if s.TypeCondition == "" && s.ObjectDefinition != nil {
+				s.TypeCondition = s.ObjectDefinition.Name
+			}
 			childSelectionSet, sf := sanitizeSelectionSet(ctx, s.SelectionSet, insertionPoint)
 			scrubFields.Merge(sf)
 
